@@ -1131,6 +1131,9 @@ func init() {
 			"combinations, drops) over databases {d1,d2,a} x collections {c,e,c.d,b.c} and, in 12% of the cases, the dotted database a.b, on a FileStore in a temp dir; Close; reopen; " +
 			"option combinations (unique+TTL, unique+partial, TTL+partial, all, named descending compound), large expireAfterSeconds (30/60 days, 2^29, 2^30, 2147484), drops of the _id index by name and by key specification, " +
 			"8% of the histories with more than 100 (2%: more than 1000) change events; " +
+			"30% of the documents carry their _id behind other fields, 45% of the upserts name _id last in the filter, 40% of the index keys give their directions as int64 / double, " +
+			"40-45% of the histories end with a collection that is empty but has secondary indexes (created empty / emptied by DeleteMany); every history is followed by load, one more write, save, load " +
+			"(fixpoint: other namespaces untouched, third catalog = second + write); the ListIndexes output of every namespace is compared type-sensitively before close / after reload; " +
 			"compare dumps of every namespace (documents in order, index definitions, local.oplog), duplicate probes, a change stream resumed after an old event before and after the reload, index coherence and _id_ presence on both sides; model: loadfile on the real bytes, storefile through the real Load; " +
 			"non-trivial = the catalog holds a document or a secondary index",
 		Gen: func(r *gen.R, idx int) []run.Case { return reloadCase(r) },
